@@ -1,0 +1,230 @@
+//! Helpers to drive a single replica of a block (or a single component) from outside the crate.
+use std::any::TypeId;
+
+use crate::block::{BatchMode, Batcher};
+use crate::config::RuntimeConfig;
+use crate::network::{
+    Coord, DemuxCoord, NetworkMessage, NetworkReceiver, NetworkSender, NetworkTopology,
+    ReceiverEndpoint,
+};
+use crate::operator::{ExchangeData, Operator, StreamElement};
+use crate::scheduler::ExecutionMetadata;
+
+use super::observe::{c3, C3};
+
+/// Sends batches to the replica under test on behalf of one upstream replica.
+pub struct Feeder<T: ExchangeData> {
+    coord: Coord,
+    sender: NetworkSender<T>,
+}
+
+impl<T: ExchangeData> Feeder<T> {
+    pub fn coord(&self) -> C3 {
+        c3(self.coord)
+    }
+    pub fn send(&self, batch: Vec<StreamElement<T>>) {
+        self.sender
+            .send(NetworkMessage::new_batch(batch, self.coord))
+            .expect("testkit: receiver is gone");
+    }
+    pub fn try_send(&self, batch: Vec<StreamElement<T>>) -> bool {
+        self.sender
+            .send(NetworkMessage::new_batch(batch, self.coord))
+            .is_ok()
+    }
+}
+
+/// Collects what the replica under test sends to one downstream replica.
+pub struct Drain<T: ExchangeData> {
+    coord: Coord,
+    receiver: NetworkReceiver<T>,
+}
+
+impl<T: ExchangeData> Drain<T> {
+    pub fn coord(&self) -> C3 {
+        c3(self.coord)
+    }
+    /// Next batch, if one is queued: (sender, elements).
+    pub fn try_recv(&self) -> Option<(C3, Vec<StreamElement<T>>)> {
+        self.receiver
+            .try_recv()
+            .ok()
+            .map(|m| (c3(m.sender()), m.into_iter().collect()))
+    }
+    pub fn recv(&self) -> Option<(C3, Vec<StreamElement<T>>)> {
+        self.receiver
+            .recv()
+            .ok()
+            .map(|m| (c3(m.sender()), m.into_iter().collect()))
+    }
+}
+
+/// A fake execution graph around one replica of one block.
+pub struct Testbed {
+    topology: NetworkTopology,
+    dest: Coord,
+    replicas: Vec<Coord>,
+    global_id: u64,
+}
+
+impl Testbed {
+    /// The replica under test is `(block_id, host 0, replica_id)` out of `n_replicas`.
+    pub fn new(block_id: u64, replica_id: u64, n_replicas: u64) -> Self {
+        let config = RuntimeConfig::local(n_replicas.max(1)).unwrap();
+        Testbed {
+            topology: NetworkTopology::new(config),
+            dest: Coord::new(block_id, 0, replica_id),
+            replicas: (0..n_replicas.max(1))
+                .map(|r| Coord::new(block_id, 0, r))
+                .collect(),
+            global_id: replica_id,
+        }
+    }
+
+    /// Declare an upstream block with `replicas` replicas, all connected to the replica under test.
+    pub fn upstream<T: ExchangeData>(&mut self, prev_block: u64, replicas: u64) -> Vec<Feeder<T>> {
+        let typ = TypeId::of::<T>();
+        let mut out = vec![];
+        for r in 0..replicas {
+            let coord = Coord::new(prev_block, 0, r);
+            self.topology.connect(coord, self.dest, typ, false);
+        }
+        for r in 0..replicas {
+            let coord = Coord::new(prev_block, 0, r);
+            let sender = self
+                .topology
+                .get_sender::<T>(ReceiverEndpoint::new(self.dest, prev_block));
+            out.push(Feeder { coord, sender });
+        }
+        out
+    }
+
+    /// Declare a downstream block with `replicas` replicas, all connected from the replica under
+    /// test.
+    pub fn downstream<T: ExchangeData>(&mut self, next_block: u64, replicas: u64) -> Vec<Drain<T>> {
+        let typ = TypeId::of::<T>();
+        for r in 0..replicas {
+            self.topology
+                .connect(self.dest, Coord::new(next_block, 0, r), typ, false);
+        }
+        (0..replicas)
+            .map(|r| {
+                let coord = Coord::new(next_block, 0, r);
+                let receiver = self
+                    .topology
+                    .get_receiver::<T>(ReceiverEndpoint::new(coord, self.dest.block_id));
+                Drain { coord, receiver }
+            })
+            .collect()
+    }
+
+    /// Call `Operator::setup` on the chain with the metadata of the replica under test, then drop
+    /// the topology's own channel handles (as the scheduler does before workers run).
+    pub fn setup<O: Operator>(&mut self, op: &mut O, batch_mode: BatchMode) {
+        let prev = self.topology.prev(self.dest);
+        let mut metadata = ExecutionMetadata {
+            coord: self.dest,
+            replicas: self.replicas.clone(),
+            global_id: self.global_id,
+            prev,
+            network: &mut self.topology,
+            batch_mode,
+        };
+        op.setup(&mut metadata);
+        self.topology.finalize();
+    }
+}
+
+/// Run `f` with a metadata object describing replica `global_id` of `n_replicas` (no links).
+pub fn with_metadata<R>(
+    block_id: u64,
+    global_id: u64,
+    n_replicas: u64,
+    batch_mode: BatchMode,
+    f: impl FnOnce(&mut ExecutionMetadata) -> R,
+) -> R {
+    let config = RuntimeConfig::local(n_replicas.max(1)).unwrap();
+    let mut topology = NetworkTopology::new(config);
+    let replicas: Vec<_> = (0..n_replicas.max(1))
+        .map(|r| Coord::new(block_id, 0, r))
+        .collect();
+    let mut metadata = ExecutionMetadata {
+        coord: replicas[global_id as usize],
+        replicas,
+        global_id,
+        prev: vec![],
+        network: &mut topology,
+        batch_mode,
+    };
+    f(&mut metadata)
+}
+
+/// A `Batcher` over a local channel, with the receiving end.
+pub struct BatcherKit<T: ExchangeData> {
+    batcher: Option<Batcher<T>>,
+}
+
+impl<T: ExchangeData> BatcherKit<T> {
+    pub fn new(mode: BatchMode) -> (Self, Drain<T>) {
+        let from = Coord::new(0, 0, 0);
+        let to = Coord::new(1, 0, 0);
+        let endpoint = ReceiverEndpoint::new(to, 0);
+        let (sender, receiver) = crate::network::local_channel::<T>(endpoint);
+        (
+            BatcherKit {
+                batcher: Some(Batcher::new(sender, mode, from)),
+            },
+            Drain {
+                coord: to,
+                receiver,
+            },
+        )
+    }
+    pub fn enqueue(&mut self, e: StreamElement<T>) {
+        self.batcher.as_mut().unwrap().enqueue(e)
+    }
+    pub fn flush(&mut self) {
+        self.batcher.as_mut().unwrap().flush()
+    }
+    pub fn end(&mut self) {
+        if let Some(b) = self.batcher.take() {
+            b.end()
+        }
+    }
+}
+
+/// Frame one batch exactly as the multiplexer thread does.
+pub fn frame_send<T: ExchangeData, W: std::io::Write>(
+    batch: Vec<StreamElement<T>>,
+    sender: C3,
+    dest: C3,
+    dest_prev_block: u64,
+    w: &mut W,
+) {
+    let msg = NetworkMessage::new_batch(batch, Coord::new(sender.0, sender.1, sender.2));
+    let dest = ReceiverEndpoint::new(Coord::new(dest.0, dest.1, dest.2), dest_prev_block);
+    crate::network::verif_remote_send(msg, dest, w, "verif");
+}
+
+/// Read one frame exactly as a demultiplexer thread does: (dest coord, dest prev block, sender,
+/// elements), `None` at end of stream.
+#[allow(clippy::type_complexity)]
+pub fn frame_recv<T: ExchangeData, R: std::io::Read>(
+    demux_block: u64,
+    demux_host: u64,
+    prev_block: u64,
+    r: &mut R,
+) -> Option<(C3, u64, C3, Vec<StreamElement<T>>)> {
+    let coord = DemuxCoord::new(
+        Coord::new(prev_block, 0, 0),
+        Coord::new(demux_block, demux_host, 0),
+    );
+    crate::network::verif_remote_recv::<T, R>(coord, r, "verif").map(|(dest, msg)| {
+        (
+            c3(dest.coord),
+            dest.prev_block_id,
+            c3(msg.sender()),
+            msg.into_iter().collect(),
+        )
+    })
+}
